@@ -188,20 +188,35 @@ func isMethod(f *ssa.Function, pkg, typ, name string) bool {
 	return an.IsNamed(f.Signature.Recv().Type(), pkg, typ)
 }
 
-// runDo finds Run.Do: the function of internal/run that calls the setup runner.
+// runDo finds Run.Do by role: the minimal function of internal/run that (through helpers) both calls the setup
+// runner and the run loop. The call returned is the instruction of Do's own frame at which setup happens.
 func runDo(c *core.Ctx) (*ssa.Function, ssa.CallInstruction) {
 	setup, _, _ := setupRunner(c)
+	loop, _ := runLoop(c)
+	var best *ssa.Function
+	var bestCall ssa.CallInstruction
 	for _, fn := range c.AllFuncs {
-		if core.RelPkg(fn) != "internal/run" {
+		if core.RelPkg(fn) != "internal/run" || fn.Parent() != nil {
 			continue
 		}
-		for _, call := range an.AllCalls(fn) {
-			if an.Callee(call) == setup {
-				return fn, call
+		sev := an.FlatCalls(fn, flatDepth, func(_ ssa.CallInstruction, t *ssa.Function) bool { return t == setup })
+		lev := an.FlatCalls(fn, flatDepth, func(_ ssa.CallInstruction, t *ssa.Function) bool { return t == loop })
+		if len(sev) == 0 || len(lev) == 0 {
+			continue
+		}
+		if best != nil {
+			// keep the one that does not call the other
+			if len(an.FlatCalls(fn, flatDepth, func(_ ssa.CallInstruction, t *ssa.Function) bool { return t == best })) > 0 {
+				continue
 			}
 		}
+		best = fn
+		bestCall, _ = sev[0].Root().(ssa.CallInstruction)
 	}
-	panic(core.AnchorError{What: "Run.Do (caller of the setup runner in internal/run)"})
+	if best == nil {
+		panic(core.AnchorError{What: "Run.Do (function of internal/run that runs setup and the run loop)"})
+	}
+	return best, bestCall
 }
 
 // runLoop finds Run.run: the function of internal/run that creates the PoolManager.
